@@ -1308,6 +1308,12 @@ func (c *Client) AckResult(res ...*OpResult) error {
 	defer c.qs.resultMu.RUnlock()
 	nrq := []*OpResult{}
 	for _, r := range c.qs.resultq {
+		if r == nil {
+			// A result that could not be matched to a pending operation is stored as
+			// nil, it cannot be acknowledged, so keep it.
+			nrq = append(nrq, r)
+			continue
+		}
 		_, ok := toACK[r.OperationID]
 		if !ok {
 			nrq = append(nrq, r)
